@@ -263,6 +263,42 @@ func runDelivery(c Case) *h.Result {
 			return fail(msg)
 		}
 	}
+	// the same through the functions a program calls: read-each and read-push on a stream that hands over its bytes in
+	// pieces, and read called until the end of the stream
+	for _, size := range []int{1, 4, n + 1} {
+		cuts := fixed(n, size)
+		lisp := func(body string, post func(*slip.Scope, slip.Object) []slip.Object) result {
+			return classify(func() []slip.Object {
+				scope := scopeFor(c)
+				scope.Let(slip.Symbol("c02-in"), slip.NewInputStream(&chunker{data: data, cuts: cuts}))
+				code := slip.ReadString(body, slip.NewScope())
+				var v slip.Object
+				for _, f := range code {
+					v = f.Eval(scope, 0)
+				}
+				return post(scope, v)
+			})
+		}
+		rev := func(_ *slip.Scope, v slip.Object) []slip.Object {
+			l, _ := v.(slip.List)
+			out := make([]slip.Object, len(l))
+			for i, o := range l {
+				out[len(l)-1-i] = o
+			}
+			return out
+		}
+		got := lisp("(let ((acc nil)) (read-each c02-in (lambda (x) (setq acc (cons x acc)))) acc)", rev)
+		if msg := check(fmt.Sprintf("(read-each stream fn) chunks of %d", size), got); msg != "" {
+			return fail(msg)
+		}
+		if ref.kind == "objects" {
+			got = lisp(fmt.Sprintf("(let ((ch (make-channel %d)) (acc nil)) (read-push c02-in ch) (channel-close ch) (dotimes (i %d) (setq acc (cons (channel-pop ch) acc))) acc)", len(ref.objs)+1, len(ref.objs)), rev)
+			if msg := check(fmt.Sprintf("(read-push stream channel) chunks of %d", size), got); msg != "" {
+				return fail(msg)
+			}
+		}
+		evals += 2
+	}
 	res.Evals = evals
 	res.NonTrivial = inside > 0 && ref.kind == "objects"
 	return res
